@@ -141,6 +141,10 @@ def run(chk, tier):
         # the one cross-arena channel: a handle presented to another arena's set must be refused
         rules_roots.fetch_rules(chk, prog, c, rule="foreign-handle-refused")
         rules_roots.contains_identity(chk, prog, c, rule="foreign-handle-identity")
+        # ... and a handle's pointer is re-branded (given the brand of whatever arena is at hand) nowhere else: the
+        # inventory of lifetime-only transmutes is confined to the reviewed dynamic-root functions behind that gate
+        from gcv.props import C12 as c12
+        c12.rebrand_inventory(chk, prog, c, rule="handle-rebranded-only-behind-the-gate")
     # positive control
     ff, err = fixture_facts()
     fired = False
